@@ -34,6 +34,10 @@ for mu in M:
         viol = [l for l in out.splitlines() if l.startswith('VIOLATION')]
         keys = sorted({l.split('key=')[1].split(' ')[0] for l in viol if 'key=' in l})
         status = 'caught' if viol else 'missed'
+        if not viol and not tests_pass:
+            status = 'not a valid mutant (the repository tests fail with it)'
+        elif not viol and mu.get('note'):
+            status = 'not caught; ' + mu['note']
         results[key] = dict(status=status, tests_pass=tests_pass, keys=keys[:6])
         print(key, status.upper(), 'tests_pass=%s' % tests_pass, keys[:3])
     finally:
